@@ -78,6 +78,7 @@ type c16Cfg struct {
 	perWl     *intstr.IntOrString
 	maxUnav   *intstr.IntOrString
 	unreadyOK []string // pods that may become unready
+	termOK    []string // pods that may start terminating (deletionTimestamp set, grace period running) while still Ready
 	touch     bool     // alphabet additionally contains "another writer updates the waiting job" (stale copy => Update conflicts)
 	failRun   bool     // alphabet additionally contains Running -> Failed
 	reready   bool     // alphabet additionally contains "pod becomes ready again"
@@ -581,6 +582,36 @@ func c16BuildOps(cfg *c16Cfg) []c16Op {
 			enabled: func(s *c16Sys) bool { return len(s.listJobs()) > 0 },
 			apply:   func(s *c16Sys) { s.restart() }})
 	}
+	for _, pn := range cfg.termOK {
+		pn := pn
+		ps := c16Spec(pn)
+		// somebody (an eviction of a finished job, a user, a rollout) deletes the pod: during its grace period it is still
+		// in the API server, still reports Ready, and is no longer available to its workload
+		ops = append(ops, c16Op{name: "terminating(" + pn + ")", pod: pn, kind: "terminating",
+			enabled: func(s *c16Sys) bool { return !s.gone[pn] && s.podObj[pn].DeletionTimestamp == nil },
+			apply: func(s *c16Sys) {
+				key := types.NamespacedName{Namespace: ps.ns, Name: ps.name}
+				p := &corev1.Pod{}
+				if err := s.cl.Get(context.TODO(), key, p); err != nil {
+					panic(err)
+				}
+				p.Finalizers = []string{"verif/grace-period"} // keeps the object in the fake API server after Delete
+				if err := s.cl.Update(context.TODO(), p); err != nil {
+					panic(err)
+				}
+				if err := s.cl.Delete(context.TODO(), p); err != nil {
+					panic(err)
+				}
+				q := &corev1.Pod{}
+				if err := s.cl.Get(context.TODO(), key, q); err != nil {
+					panic(err)
+				}
+				if q.DeletionTimestamp == nil {
+					panic("c16: pod is not terminating after Delete")
+				}
+				s.podObj[pn] = q
+			}})
+	}
 	for _, pn := range cfg.unreadyOK {
 		pn := pn
 		ps := c16Spec(pn)
@@ -1051,7 +1082,7 @@ func (s *c16Sys) Key() string {
 	}
 	var ws []w
 	for _, ps := range c16Universe {
-		fmt.Fprintf(&sb, "%s:r=%v,gone=%v", ps.name, c16Ready(s.podObj[ps.name]), s.gone[ps.name])
+		fmt.Fprintf(&sb, "%s:r=%v,gone=%v,term=%v", ps.name, c16Ready(s.podObj[ps.name]), s.gone[ps.name], s.podObj[ps.name].DeletionTimestamp != nil)
 		var fin []string
 		for i := range jobs {
 			j := &jobs[i]
@@ -1123,9 +1154,9 @@ func c16Configs(env *mc.Env) []*c16Cfg {
 		// workload cap (1) below the unavailability allowance (2 for w1), node cap 2
 		{name: "wl1-node2-restart", elig: []string{"a1", "a2", "a3", "b1"}, perNode: i(2), perWl: c16IS("1"), maxUnav: c16IS("70%"), unreadyOK: []string{"a2"}, restart: true, depthQ: 7, depthT: 9},
 		// unavailability 50% (1 of 3, 1 of 2) below the workload cap, pods turning unready (also beyond the allowance)
-		{name: "unav50pct", elig: []string{"a1", "a2", "b1"}, perWl: c16IS("70%"), maxUnav: c16IS("50%"), unreadyOK: []string{"a1", "a3", "b2"}, depthQ: 7, depthT: 10},
+		{name: "unav50pct", elig: []string{"a1", "a2", "b1"}, perWl: c16IS("70%"), maxUnav: c16IS("50%"), unreadyOK: []string{"a1", "a3", "b2"}, termOK: []string{"a3"}, depthQ: 7, depthT: 10},
 		// unavailability 1 (one slot per workload), global 1 (the binding limit across the workloads), everything else unset
-		{name: "unav1-global1-poddel", elig: []string{"a1", "a3", "b1", "b2"}, global: i(1), maxUnav: c16IS("1"), unreadyOK: []string{"a2"}, podDel: []string{"a3", "b2"}, depthQ: 7, depthT: 9},
+		{name: "unav1-global1-poddel", elig: []string{"a1", "a3", "b1", "b2"}, global: i(1), maxUnav: c16IS("1"), unreadyOK: []string{"a2"}, termOK: []string{"a2"}, podDel: []string{"a3", "b2"}, depthQ: 7, depthT: 9},
 		// allowance == replicas for w2: its jobs are refused for good (Failed) while w1 competes for node / namespace slots
 		{name: "wl2-nonretryable", elig: all, perNode: i(2), perNs: i(2), perWl: c16IS("2"), maxUnav: c16IS("2"), depthQ: 6, depthT: 9},
 		// the arbitrator's copy of a waiting job goes stale (another writer updated the job): its Update conflicts
